@@ -35,16 +35,23 @@ def http_layer(events, ep, base_of):
     """events: raw list (one run). Returns the AcmeHttp-layer events of endpoint `ep`."""
     out = []
     pending_poll = {}
+    cert_ep = {}
     for e in events:
         src, ev = e.get("src"), e.get("ev")
         if src == "acmed":
             if ev == "Sleep" and e.get("kind") == "poll":
                 pending_poll[e.get("cert")] = True
                 continue
+            if ev == "ReqEnd" and cert_ep.get(e.get("cert")) == ep:
+                # request_certificate has returned: whatever http::post call the certificate was in is over
+                out.append({"e": "AttemptOver", "who": nz(e.get("cert"))})
+                continue
             if e.get("ep") != ep:
                 continue
+            if e.get("cert"):
+                cert_ep[e["cert"]] = ep
             if ev == "PostBegin":
-                out.append({"e": "PostBegin", "url": e["url"], "cell": nz(e.get("cell")),
+                out.append({"e": "PostBegin", "url": e["url"], "cell": nz(e.get("cell")), "who": nz(e.get("cert")),
                             "poll": bool(pending_poll.pop(e.get("cert"), False))})
             elif ev == "HttpPost":
                 out.append({"e": "HttpPost", "url": e["url"], "nonce": nz(e.get("nonce")), "cell": nz(e.get("cell"))})
@@ -131,8 +138,8 @@ def flow_info(c):
             ids.append({"id": "ip:" + i.get("canon", i["ip"]), "chal": i["challenge"]})
     kt = (c.get("key_type") or "rsa2048").lower().replace("-", "_")
     digest = (c.get("csr_digest") or "sha256").lower().replace("-", "").replace("_", "")
-    if kt in ("ed25519", "ed448"):
-        digest = "none"
+    # (an EdDSA key signs without a digest; which key signs is decided at run time - kp_reuse may keep a key of
+    #  another type than configured -, so the expectation is formed in the specification from the CSR's own key type)
     subj = sorted("%s=%s" % (SUBJECT_SHORT[k], v) for k, v in (c.get("subject_attributes") or {}).items())
     return {"ids": ids, "kp_reuse": bool(c.get("kp_reuse", False)), "subject": subj, "digest": digest, "key_type": kt}
 
@@ -259,9 +266,10 @@ def flow_layer(events, cid, info, vc, hook_types):
                 if c.get("ok_call"):
                     names = ["dns:" + x for x in c["dns"]] + ["ip:" + x for x in c["ips"]]
                     csr = {"spki": c["spki_sha"], "names": names, "subject": sorted("%s=%s" % (a, b) for a, b in c["subject"]),
-                           "digest": digest_of_sigalg(c["sig_alg"]), "verify_ok": bool(c["verify_ok"]) and c["other_san"] == 0}
+                           "digest": digest_of_sigalg(c["sig_alg"]), "eddsa": "ED25519" in str(c["sig_alg"]).upper() or "ED448" in str(c["sig_alg"]).upper(),
+                           "verify_ok": bool(c["verify_ok"]) and c["other_san"] == 0}
                 else:
-                    csr = {"spki": "none", "names": [], "subject": [], "digest": "none", "verify_ok": False}
+                    csr = {"spki": "none", "names": [], "subject": [], "digest": "none", "eddsa": False, "verify_ok": False}
                 out.append({"e": "Finalize", "csr": csr, "issued": d.get("cert_sha") or "none"})
             elif kind == "cert" and st == 200 and "sha" in d:
                 out.append({"e": "CertServed", "sha": d["sha"], "genuine": bool(d["genuine"])})
